@@ -420,6 +420,7 @@ STAT_FORMS = [
     "function n.a.b:c(p, ...) return p end", "function g() end", "local function h(...) return ... end",
     "local p <const>, q <close> = 1, nil", "local r", "x = function() return 1 end", "x = {1, a = 2, [3] = 4; 5}",
     "x = a .. b .. 1", "x = -y ^ -2", "x = not (a == b)", "x = #t + 1", "x = 1 .. 2", "x = t[ [[k]] ]",
+    "x = 'a\\z --b' .. \"\\z--[[c]]d\"", "s = \"a\\z   --[[b]]c\" y = 1",
 ]
 RETURN_FORMS = ["return", "return 1", "return a, b", "return f(x)", "return ...", "return;", "return 1;"]
 
@@ -771,6 +772,30 @@ def run_c03(ctx: fw.Ctx) -> None:
     eval_programs(ctx, st, progs, [], check_tree=True, check_format=False)
     st.exhaustive = True
     run_witnesses(ctx, ["K1", "K2"], [], check_tree=True, check_format=False)
+    st_v = ctx.stream("the same text parsed again after the first tree was edited in place (by hand and by the dependency inliner): the second tree must be fresh")
+    for src in ["x = 1 + 2 * 3\ny = f(x)", "local a = require('m')\nreturn a", "if a then b() end", "t = {1, 2, k = 3}"] + random_programs(ctx, "c03twice", ctx.n(20, 300)):
+        case = {"kind": "program", "source": src}
+        st_v.record(case, key=src)
+        s1, a1 = tparse(src)
+        if s1 != "ok":
+            continue
+        want = absast.abs_chunk(a1)
+        a1.statements.clear()
+        a1.returns = None
+        with quiet():
+            try:
+                rootd = Path(tempfile.mkdtemp(prefix="tumfl-c03-"))
+                (rootd / "main.lua").write_text(src, encoding="utf-8")
+                (rootd / "m.lua").write_text("return 1", encoding="utf-8")
+                try:
+                    tumfl.resolve_recursive(rootd / "main.lua", [])
+                except Exception:  # noqa: BLE001
+                    pass
+            finally:
+                shutil.rmtree(rootd, ignore_errors=True)
+        s2, a2 = tparse(src)
+        if s2 != "ok" or a2 is a1 or absast.abs_chunk(a2) != want:
+            st_v.fail("a second parse of the same text is affected by what was done to the first tree", case)
     t2_parse(ctx, t2_programs(ctx, 400, 8000) + progs[:: ctx.n(5, 1)])
 
 
@@ -1056,6 +1081,18 @@ def run_c05(ctx: fw.Ctx) -> None:
     st4 = ctx.stream("code points raw and via \\u{}" + (" (boundaries + sample)" if ctx.quick else " (all 1112064 scalar values)"))
     eval_lex(st4, c05_codepoints(r, 3000 if ctx.quick else None), positions=False)
     st4.exhaustive = not ctx.quick
+    st_h = ctx.stream("byte escapes read strictly AFTER a lenient lexer (ignore_unicode_errors=True) has read the same escape: still rejected")
+    for lit in ['"\\200"', "'\\xC3'", '"a\\255b"', '"\\128\\xff"', '"\\u{D800}"']:
+        with quiet():
+            try:
+                lx = Lexer("x = " + lit, ignore_unicode_errors=True)
+                for _ in range(10):
+                    if lx.get_next_token().type == TokenType.EOF:
+                        break
+            except Exception:  # noqa: BLE001
+                pass
+        eval_lex(st_h, [lit, "x = " + lit + " .. y"], positions=False, meta={"after_lenient_lexer_on": lit})
+    st_h.exhaustive = True
     st5 = ctx.stream("random literals from the program generator")
     g = gen.ProgGen(r, gen.Cfg())
     rl = [g.string().text for _ in range(ctx.n(2000, 40000))]
@@ -1510,7 +1547,7 @@ for pid, runner, rule in [
 
 
 # =========================================================================== C13 statement-leading comments
-COMMENT_TEXTS = ["c", "x = 1", "[[", "]]", "[=[ k ]=]", "--", "- -", "'q", "\"q", "end", "]==]", "é中", "a\tb", "[", "[=", "=[",
+COMMENT_TEXTS = ["", "c", "x = 1", "[[", "]]", "[=[ k ]=]", "--", "- -", "'q", "\"q", "end", "]==]", "é中", "a\tb", "[", "[=", "=[",
                  "[[ ]]", "TODO: (x)", "#!/bin/sh", "\\n", "--[[", "]] --", "{ }",
                  # characters that Python's str.splitlines / str.isspace treat specially but that are ordinary comment text for Lua
                  "a\x0cb", "a\x0bb", "a\x1cb", "a\x1db", "a\x1eb", "a\x85b", "a\u2028b", "a\u2029b", "a\xa0b", "a\x00b"]
@@ -1813,6 +1850,15 @@ def run_c09(ctx: fw.Ctx) -> None:
         crs.append(q[: r.randrange(len(q) + 1)])
     crs += ["a = 1\rb = = 2", "a = 1\r!", "x = 'a\rb'", "--[[\r]]\r\r!", "x = [[\r\n]] )", "\r", "\r\r(", "x\r=\r1\r)"]
     eval_total(st6, crs)
+    st_o = ctx.stream("the same malformed literals and damaged programs through Parser(typed=.., ignore_unicode_errors=..): still only LexerError / ParserError")
+    for src in lits2[:: ctx.n(3, 1)] + ['x = "\\u{80000000}"', 'x = "\\u{FFFFFFFFFF}"', 'x = "\\u{7FFFFFFF}" y', "x = '\\xff\\200' .. 1", "x as y is z", "local as = is"]:
+        for typed in (False, True):
+            for iu in (False, True):
+                case = {"kind": "options", "source": src.encode("utf-8", "surrogatepass").hex(), "typed": typed, "ignore_unicode_errors": iu}
+                st_o.record(case, key=json.dumps(case, sort_keys=True))
+                got = option_error_pos(src, typed, iu)
+                if got[0] == "other":
+                    st_o.fail(f"Parser(typed={typed}, ignore_unicode_errors={iu}) raised {got[1]}", case)
     st7 = ctx.stream("nesting up to the quantifier's bound (20) in every recursive construct, and long flat chains, closed and truncated")
     deep = []
     for n in (10, 20):
@@ -1877,6 +1923,11 @@ def run_c10(ctx: fw.Ctx) -> None:
     subs = sorted({src for _, src in sublanguage_programs(not ctx.quick)})
     eval_accept(st_s, subs)
     st_s.exhaustive = True
+    st_a = ctx.stream("every character string up to a length over a numeral/name/dot alphabet, written WITHOUT blanks (what touches a numeral decides whether it is one)")
+    adj = sorted({pre + "".join(c) + suf for k in range(0, (5 if ctx.quick else 6)) for c in itertools.product(["1", "_", "a", ".", "e", "x", "0", "+", "(", ")", "p"], repeat=k)
+                  for pre, suf in (("x = ", ""), ("x = 1", "()"))})
+    eval_accept(st_a, adj)
+    st_a.exhaustive = True
     r2 = ctx.rng("c10sub")
     t2_parse(ctx, srcs[:: ctx.n(4, 1)] + r2.sample(subs, ctx.n(3000, 60000)))
     st_f = ctx.stream("the same texts through the file entry point (resolve_recursive on the file, and as a required file): accepted iff parse accepts")
@@ -3359,7 +3410,10 @@ def t2_units(ctx: fw.Ctx, which: list[str], name: str = "T2:units") -> None:
     for (req, fn), ans in zip(reqs, answers):
         st.record({"kind": "t2-unit", "op": req[1]}, key=repr(req))
         st.notes[req[1]] = st.notes.get(req[1], 0) + 1
-        mine = fn()
+        try:
+            mine = fn()
+        except Exception as e:  # noqa: BLE001  (a helper whose signature or behaviour changed: that is a difference, not a crash of the check)
+            mine = f"err py {type(e).__name__}: {e}"[:200]
         if ans != mine:
             ctx.tie_broken(name, {"unit": req[1], "args": [unhx(x) if i < 1 or req[1] == "sep" else x for i, x in enumerate(req[2:])][:3],
                                   "model": ans[:500], "tumfl": mine[:500]})
